@@ -15,10 +15,19 @@ VINE = 'copulas.multivariate.vine.VineCopula'
 TREE = 'copulas.multivariate.tree.'
 
 
-def accessor_pattern(prog, fn):
-    """Recognise the level-1 / deeper accessor of (left_u, right_u) in a Tree method.
-    Returns dict(level1=(L ok, R ok), deeper=ok) or None."""
-    res = {'level1': None, 'deeper': None}
+def accessor_pattern(prog, fn, ctx=None, _depth=0):
+    """Recognise the level-1 / deeper accessor of (left_u, right_u) in a Tree method (or in the private helper it
+    delegates to).  Returns dict(level1={name: 'L'|'R'}, deeper=..., via=<helper name or None>)."""
+    res = {'level1': None, 'deeper': None, 'via': None}
+    if ctx is not None and _depth == 0:
+        from ..idioms import private_closure
+        for g in private_closure(ctx, fn, fn.cls)[1:]:
+            sub = accessor_pattern(prog, g, None, 1)
+            if sub['level1'] is not None or sub['deeper']:
+                own = accessor_pattern(prog, fn, None, 1)
+                if own['level1'] is None and not own['deeper']:
+                    sub['via'] = g.name
+                    return sub
     for n in walk_no_nested(fn.node):
         if isinstance(n, ast.If) and isinstance(n.test, ast.Compare) and is_self_attr(n.test.left, fn.self_name, 'level') \
                 and const_value(n.test.comparators[0]) == 1 and isinstance(n.test.ops[0], ast.Eq):
@@ -31,7 +40,22 @@ def accessor_pattern(prog, fn):
                         l1[s.targets[0].id] = col.attr
             res['level1'] = l1
             deeper = False
-            for s in n.orelse:
+            # the "else" part may be the orelse or, after an early return, the statements that follow the if
+            rest = list(n.orelse)
+            if not rest and any(isinstance(x, ast.Return) for x in n.body):
+                par = n._parent
+                body = getattr(par, 'body', [])
+                if n in body:
+                    rest = body[body.index(n) + 1:]
+            for s in rest:
+                if isinstance(s, ast.Return) and isinstance(s.value, ast.Call) and call_name(s.value) == 'get_conditional_uni':
+                    a = s.value.args
+                    names = [getattr(x, 'id', None) for x in a]
+                    unpack = [t for t in rest if isinstance(t, ast.Assign) and isinstance(t.targets[0], ast.Tuple)
+                              and isinstance(t.value, ast.Attribute) and t.value.attr == 'parents']
+                    if unpack and [getattr(e, 'id', None) for e in unpack[0].targets[0].elts] == names:
+                        deeper = ['left_u', 'right_u']
+            for s in rest:
                 if isinstance(s, ast.Assign) and isinstance(s.value, ast.Call) and call_name(s.value) == 'get_conditional_uni':
                     a = s.value.args
                     names = [getattr(x, 'id', None) for x in a]
@@ -75,15 +99,24 @@ def d1(ctx, rep):
         fn = tree.methods.get(meth)
         if fn is None:
             raise AnalysisError(f'anchor vanished: Tree.{meth}')
-        p = accessor_pattern(prog, fn)
+        p = accessor_pattern(prog, fn, ctx)
         pats[meth] = p
         l1 = p['level1']
-        ok1 = bool(l1) and sorted(l1.values()) == ['L', 'R'] and any(k.startswith('left') and v == 'L' for k, v in l1.items()) \
-            and any(k.startswith('right') and v == 'R' for k, v in l1.items())
-        rep.check('D1.accessor', fn, fn.node.name, ok1, f'{meth}: level 1 reads u_matrix[:, edge.L] as left and u_matrix[:, edge.R] as right',
-                  f'{meth}: at level 1 the two inputs of an edge are not (u_matrix[:, L], u_matrix[:, R]) ({l1})', construct=f'{meth} level 1')
-        rep.check('D1.accessor', fn, fn.node.name, bool(p['deeper']), f'{meth}: above level 1 reads Edge.get_conditional_uni(*edge.parents)',
-                  f'{meth}: above level 1 the inputs are not get_conditional_uni of the edge\'s own parents in order', construct=f'{meth} deeper levels')
+        via = f' (through {p["via"]})' if p.get('via') else ''
+        if l1 is None:
+            rep.undecided('D1.accessor', fn, fn.node.name, f'{meth}: how the two inputs of an edge are read was not recognised', construct=f'{meth} level 1')
+        else:
+            ok1 = bool(l1) and sorted(l1.values()) == ['L', 'R'] and any(k.startswith('left') and v == 'L' for k, v in l1.items()) \
+                and any(k.startswith('right') and v == 'R' for k, v in l1.items())
+            rep.check('D1.accessor', fn, fn.node.name, ok1, f'{meth}: level 1 reads u_matrix[:, edge.L] as left and u_matrix[:, edge.R] as right{via}',
+                      f'{meth}: at level 1 the two inputs of an edge are not (u_matrix[:, L], u_matrix[:, R]) ({l1})', construct=f'{meth} level 1')
+        if p['deeper']:
+            rep.ok('D1.accessor', fn, fn.node.name, f'{meth}: above level 1 reads Edge.get_conditional_uni(*edge.parents){via}', construct=f'{meth} deeper levels')
+        elif l1 is None:
+            rep.undecided('D1.accessor', fn, fn.node.name, f'{meth}: accessor above level 1 not recognised', construct=f'{meth} deeper levels')
+        else:
+            rep.bad('D1.accessor', fn, fn.node.name, f'{meth}: above level 1 the inputs are not get_conditional_uni of the edge\'s own parents in order',
+                    construct=f'{meth} deeper levels')
     # the child edge selects its copula on the same conditional pseudo-observations
     edge = prog.cls(TREE + 'Edge')
     gc = edge.methods['get_child_edge']
@@ -319,6 +352,12 @@ def d3(ctx, rep):
             recv = calls[0].value.func.value
             idx_ok = isinstance(recv, ast.Subscript) and is_self_attr(recv.value, vn.self_name, 'trees') and isinstance(recv.slice, ast.Name) \
                 and isinstance(lp.target, ast.Name) and recv.slice.id == lp.target.id
+            # for i, tree in enumerate(self.trees) / for tree in self.trees
+            it = lp.iter
+            over_trees = is_self_attr(it, vn.self_name, 'trees') or (isinstance(it, ast.Call) and call_name(it) == 'enumerate' and it.args
+                                                                    and is_self_attr(it.args[0], vn.self_name, 'trees'))
+            tvars = [e.id for e in (lp.target.elts if isinstance(lp.target, ast.Tuple) else [lp.target]) if isinstance(e, ast.Name)]
+            idx_ok = idx_ok or (over_trees and isinstance(recv, ast.Name) and recv.id in tvars)
             ok = (bool(carried) or direct) and idx_ok
     rep.check('D3.recursion', vn, loops[0] if loops else vn.node.name, ok, 'the matrix returned by tree i is the input of tree i + 1',
               'every tree is evaluated on the same matrix: the conditional pseudo-observations are not propagated', construct='matrix handed on')
